@@ -62,7 +62,7 @@ theorem untouched_keys_persist (m : AL V) (ps : List (AL V)) (k : Key)
 /-- inside the guard a query of a live connection merges the whole normalised map into Data
 and succeeds -/
 theorem backQuery_live (cfg : Cfg) (s : State V) (b : Back V) (m : AL V)
-    (hs : Inv true s) (hb : BackInv true b) (hf : cfg.isFront b.serverId = true)
+    (hs : Inv true s) (hb : BackInv true b) (hf : s.reach cfg b.serverId = true)
     (hm : lget s.fronts b.target = some m) :
     backQuery cfg s b = ({ b with data := amerge b.data (m.map fun e => (e.1, JVal.norm e.2)) }, Res.ok) := by
   simp [backQuery, hf, hm, fromJson_live hb (hs.fronts _ _ hm)]
@@ -71,7 +71,7 @@ theorem backQuery_live (cfg : Cfg) (s : State V) (b : Back V) (m : AL V)
 session afterwards holds, for EVERY key of the front map, the normalised value (unless it
 has a locally set value for that key, which `Get` prefers); nothing else of it changes. -/
 theorem query_returns_whole_map (cfg : Cfg) (s : State V) (b : Back V) (m : AL V)
-    (hs : Inv true s) (hb : BackInv true b) (hf : cfg.isFront b.serverId = true)
+    (hs : Inv true s) (hb : BackInv true b) (hf : s.reach cfg b.serverId = true)
     (hm : lget s.fronts b.target = some m) :
     (backQuery cfg s b).2 = Res.ok ∧ (backQuery cfg s b).1.target = b.target ∧
     (backQuery cfg s b).1.newData = b.newData ∧ (backQuery cfg s b).1.dirt = b.dirt ∧
@@ -133,7 +133,7 @@ theorem query_keeps_dirty (cfg : Cfg) (s : State V) (b : Back V) : (backQuery cf
 
 /-- a dirty session pushing to its live connection: the whole NewData is merged, key by key -/
 theorem backPush_live (cfg : Cfg) (s : State V) (b : Back V) (m kvs : AL V)
-    (hd : b.dirt = true) (hf : cfg.isFront b.serverId = true)
+    (hd : b.dirt = true) (hf : s.reach cfg b.serverId = true)
     (hm : lget s.fronts b.target = some m) (hj : SData.toJson b.newData = some kvs) :
     backPush cfg s b =
       ({ s with fronts := lset s.fronts b.target (amerge m kvs) }, { b with dirt := false }, Res.ok,
@@ -143,7 +143,7 @@ theorem backPush_live (cfg : Cfg) (s : State V) (b : Back V) (m kvs : AL V)
 /-- set · query · push (the D16 sequence) delivers the value: afterwards the connection's map
 holds the normalised value under the key -/
 theorem set_query_push_delivers (cfg : Cfg) (s : State V) (b : Back V) (m : AL V) (k : Key) (v : V)
-    (hs : Inv true s) (hb : BackInv true b) (hns : b.ns ≠ "") (hf : cfg.isFront b.serverId = true)
+    (hs : Inv true s) (hb : BackInv true b) (hns : b.ns ≠ "") (hf : s.reach cfg b.serverId = true)
     (hm : lget s.fronts b.target = some m)
     (hk : k ≠ KeyServerId ∧ k ≠ KeyNetId) (hv : JVal.rep v = true) :
     (lget (runScript cfg s (.back b) none [.set k v, .query, .push]).st.fronts b.target).bind
@@ -179,7 +179,7 @@ def Quiet : SOp V → Prop
 delivered by the next push — the connection's map then holds its normalised form -/
 theorem pending_survives_reads (cfg : Cfg) (mid : List (SOp V)) :
     ∀ (s : State V) (b : Back V) (m : AL V) (k : Key) (v : V) (kept : Option String),
-      Inv true s → BackInv true b → b.ns ≠ "" → cfg.isFront b.serverId = true →
+      Inv true s → BackInv true b → b.ns ≠ "" → s.reach cfg b.serverId = true →
       lget s.fronts b.target = some m → b.dirt = true → lget b.newData k = some v → (∀ op ∈ mid, Quiet op) →
       (lget (runScript cfg s (.back b) kept (mid ++ [.push])).st.fronts b.target).bind (fun m' => lget m' k)
         = some (JVal.norm v) := by
@@ -218,7 +218,7 @@ theorem pending_survives_reads (cfg : Cfg) (mid : List (SOp V)) :
 dirty and the next push still delivers it (NewData is the session's memory, not the front's
 state: another service may have overwritten the key meanwhile) — the later push wins -/
 theorem reset_same_value_still_pushed (cfg : Cfg) (s : State V) (b : Back V) (m : AL V) (k : Key) (v : V)
-    (hb : BackInv true b) (hf : cfg.isFront b.serverId = true) (hm : lget s.fronts b.target = some m)
+    (hb : BackInv true b) (hf : s.reach cfg b.serverId = true) (hm : lget s.fronts b.target = some m)
     (hk : k ≠ KeyServerId ∧ k ≠ KeyNetId) (hv : JVal.rep v = true) (_hold : lget b.newData k = some v) :
     (b.set k v).dirt = true ∧
     (lget (backPush cfg s (b.set k v)).1.fronts b.target).bind (fun m' => lget m' k) = some (JVal.norm v) := by
@@ -479,7 +479,7 @@ the currently bound uid, the front's name and the connection id (envelope `ID`, 
 theorem forward_carries_current (cfg : Cfg) (s : State V) (c : Conn) (m : AL V) (svcType : String) (ntf : Bool)
     (script : List (SOp V)) (uid : String)
     (hm : lget s.fronts c = some m) (hf : cfg.isFront c.1 = true) (hty : cfg.typeOf c.1 ≠ some svcType)
-    (hroute : cfg.typeOf (routeName cfg m svcType) = some svcType) (hid : frontGetID m = some uid) :
+    (hroute : s.memberType cfg (routeName cfg m svcType) = some svcType) (hid : frontGetID m = some uid) :
     let inst := routeName cfg m svcType
     let b : Back V := Back.init inst c.1 c.2 uid
     let t := runScript cfg s (.back b) none script
@@ -496,7 +496,7 @@ theorem forward_carries_current (cfg : Cfg) (s : State V) (c : Conn) (m : AL V) 
 theorem forward_no_target (cfg : Cfg) (s : State V) (c : Conn) (m : AL V) (svcType : String) (ntf : Bool)
     (script : List (SOp V))
     (hm : lget s.fronts c = some m) (hf : cfg.isFront c.1 = true) (hty : cfg.typeOf c.1 ≠ some svcType)
-    (hroute : cfg.typeOf (routeName cfg m svcType) = none) :
+    (hroute : s.memberType cfg (routeName cfg m svcType) = none) :
     step cfg s (.req c svcType ntf script) = ⟨s, .noTarget (if ntf then .none else .err), []⟩ := by
   simp [step, stepReq, hm, hf, hty, hroute]
 
@@ -524,10 +524,10 @@ connection, the connection's next message for that service type is handled by th
 the PUSHED value names, whatever the map said before -/
 theorem next_request_follows_push (cfg : Cfg) (s : State V) (b : Back V) (m kvs : AL V) (svcType : String) (rk : Key)
     (v : V) (inst uid : String) (ntf : Bool) (script : List (SOp V))
-    (hb : BackInv true b) (hd : b.dirt = true) (hf : cfg.isFront b.serverId = true)
+    (hb : BackInv true b) (hd : b.dirt = true) (hf : s.reach cfg b.serverId = true)
     (hm : lget s.fronts b.target = some m) (hj : SData.toJson b.newData = some kvs)
     (hrk : lget cfg.routeKey svcType = some rk) (hv : lget b.newData rk = some v)
-    (hinst : JVal.asStr (JVal.norm v) = some inst) (hty : cfg.typeOf inst = some svcType)
+    (hinst : JVal.asStr (JVal.norm v) = some inst) (hty : s.memberType cfg inst = some svcType)
     (hfty : cfg.typeOf b.serverId ≠ some svcType) (huid : frontGetID (amerge m kvs) = some uid) :
     ∃ rs, (step cfg (backPush cfg s b).1 (.req b.target svcType ntf script)).obs =
       .ran inst (some ⟨uid, b.serverId, b.netId⟩) rs (if ntf then .none else .ok) := by
@@ -540,8 +540,12 @@ theorem next_request_follows_push (cfg : Cfg) (s : State V) (b : Back V) (m kvs 
     simp only [SData.updateFromJson] at h
     rw [h, hinst]; rfl
   subst hr
+  have hfr : cfg.isFront b.serverId = true := by
+    have := hf; simp only [State.reach, Bool.and_eq_true] at this; exact this.1
+  have hty' : (backPush cfg s b).1.memberType cfg (routeName cfg (amerge m kvs) svcType) = some svcType := by
+    rw [hp]; exact hty
   have hfc := forward_carries_current cfg (backPush cfg s b).1 b.target (amerge m kvs) svcType ntf script uid hm'
-    hf hfty hty huid
+    hfr hfty hty' huid
   exact ⟨_, congrArg StepR.obs hfc.1⟩
 
 /-! ## 8. dead connections -/
@@ -549,7 +553,7 @@ theorem next_request_follows_push (cfg : Cfg) (s : State V) (b : Back V) (m kvs 
 /-- pushing to a connection that no longer exists has no effect on any map and succeeds -/
 theorem push_to_dead_noop (cfg : Cfg) (s : State V) (b : Back V) (hdead : lget s.fronts b.target = none) :
     (backPush cfg s b).1 = s ∧ (backPush cfg s b).2.2.2 = [] ∧
-      (cfg.isFront b.serverId = true → (backPush cfg s b).2.2.1 = Res.ok) := by
+      (s.reach cfg b.serverId = true → (backPush cfg s b).2.2.1 = Res.ok) := by
   simp only [backPush]
   split
   · simp
@@ -580,6 +584,45 @@ theorem dead_statements_change_nothing (cfg : Cfg) (s : State V) (b : Back V) (k
   · intro hns
     have : ¬ b.ns = "" := hns
     simp [sstep, sstepBack, this, query_dead_errors cfg s b hdead]
+
+/-! ## 9. reachability depends on cluster membership only, never on the node state -/
+
+/-- a front-end is reachable for push / query exactly when it is a known front-end and a
+cluster member; the node state it is published with is not consulted -/
+theorem reach_iff_member (cfg : Cfg) (s : State V) (name : String) :
+    s.reach cfg name = true ↔ cfg.isFront name = true ∧ name ∉ s.away := by
+  simp [State.reach]
+
+/-- forget the node states a topology update publishes -/
+def eraseStates : Op V → Op V
+  | .topo away _ => .topo away []
+  | op => op
+
+/-- over ALL histories: the node states (Init / Working / Retiring / Retired) the members are
+published with change nothing — final state and every event are the same as if every member
+were published Working.  So a session bound on a front-end stays reachable through its
+(serverId, netId) as long as the front-end is a cluster member, whatever its node state. -/
+theorem node_state_irrelevant (cfg : Cfg) (ops : List (Op V)) (s : State V) :
+    run cfg s (ops.map eraseStates) = run cfg s ops := by
+  induction ops generalizing s with
+  | nil => rfl
+  | cons op ops ih =>
+    have h : step cfg s (eraseStates op) = step cfg s op := by cases op <;> rfl
+    simp only [List.map_cons, run, h, ih]
+
+/-- per operation, observations included -/
+theorem node_state_irrelevant_step (cfg : Cfg) (s : State V) (away : List String) (st1 st2 : List (String × Nat))
+    (op : Op V) :
+    step cfg s (.topo away st1) = step cfg s (.topo away st2) ∧
+    step cfg (step cfg s (.topo away st1)).st op = step cfg (step cfg s (.topo away st2)).st op :=
+  ⟨rfl, rfl⟩
+
+/-- a front-end that left the cluster view is not reachable: a dirty push reports an error,
+a query too, no map changes -/
+theorem away_front_unreachable (cfg : Cfg) (s : State V) (b : Back V) (h : b.serverId ∈ s.away) (hd : b.dirt = true) :
+    (backPush cfg s b).1 = s ∧ (backPush cfg s b).2.2.1 = Res.err ∧ backQuery cfg s b = (b, Res.err) := by
+  have hr : s.reach cfg b.serverId = false := by simp [State.reach, h]
+  simp [backPush, backQuery, hr, hd]
 
 /-! ## non-vacuity: the hypotheses are met by concrete runs of the driver's instance -/
 
@@ -623,6 +666,13 @@ example : ∀ op ∈ demo, GuardOp true op := by
   · intro o ho
     simp only [List.mem_cons, List.mem_nil_iff, or_false] at ho
     rcases ho with rfl | rfl <;> trivial
+
+/-- the front published Retiring, then Retired: the kept session still queries and pushes; gone from the view: error -/
+example : (lget (run cfgX State.init (demo ++ [.topo [] [("gate-1", 2)]])).1.handles "h1").map
+      (fun b => (backQuery cfgX (run cfgX State.init (demo ++ [.topo [] [("gate-1", 2)]])).1 b).2) = some Res.ok ∧
+    (lget (run cfgX State.init (demo ++ [.topo ["gate-1"] []])).1.handles "h1").map
+      (fun b => (backQuery cfgX (run cfgX State.init (demo ++ [.topo ["gate-1"] []])).1 b).2) = some Res.err := by
+  decide
 
 /-- dead connection: the kept session pushes and queries after the close -/
 def sDead : State Tok := (run cfgX State.init (demo ++ [.closeC c1])).1
